@@ -132,3 +132,179 @@ Proof.
   destruct (find_optimal_solution W lvs fm (solve W lvs fm k) lv st ws first) as [st1 r]. cbn [snd] in H.
   intros E. destruct r as [s1| | |]; try discriminate. injection E as _ <-. apply H. reflexivity.
 Qed.
+
+(* ------------------------------------------------------------------ *)
+(* the break before the first token of a solved line *)
+Section Lvl.
+Variable lvs : list lview.
+
+(* child lines are not top-level lines *)
+Definition not_top (k : nat) : Prop := exists lv, nth_error lvs k = Some lv /\ lv_top lv = false.
+Hypothesis Hviews : forall lv, In lv lvs -> Forall (rec_from not_top) (lv_recs lv).
+
+Definition ev_lvl (e : event) : Prop :=
+  match e with
+  | Ev_D t (Some (true, ind, cont)) _ _ =>
+      exists k lv, nth_error lvs k = Some lv /\ hd_error (lv_gtoks lv) = Some t /\ (lv_top lv = true -> ind = lv_level lv /\ cont = 0)
+  | _ => True
+  end.
+
+Lemma sol_from_ind'' (P : solution -> Prop) :
+  (forall s, (forall t k s', In t (sol_decs s) -> In (k, s') (td_kids t) -> not_top k /\ sol_from not_top s' /\ P s') -> P s) ->
+  forall s, sol_from not_top s -> P s.
+Proof.
+  intros Hstep. refine (fix F s (H : sol_from not_top s) {struct H} : P s := _).
+  destruct H as [s Hk]. apply Hstep. intros t k s' H1 H2. destruct (Hk t k s' H1 H2) as (a & b). split; [exact a|]. split; [exact b|exact (F s' b)].
+Qed.
+
+Lemma recon_go_lvl ind cont : forall ds toks first,
+  (first = true -> exists k lv, nth_error lvs k = Some lv /\ hd_error (lv_gtoks lv) = hd_error toks
+                                /\ (lv_top lv = true -> ind = lv_level lv /\ cont = 0 /\ forall t ds' c, ds = t :: ds' -> td_dec t = WBreak c -> c = 0)) ->
+  (forall t k s', In t ds -> In (k, s') (td_kids t) ->
+     not_top k /\ (forall lv', nth_error lvs k = Some lv' -> lv_top lv' = false -> Forall ev_lvl (recon_events lvs s' (lv_gtoks lv')))) ->
+  Forall ev_lvl (recon_go lvs ind cont ds toks first).
+Proof.
+  induction ds as [|t ds IH]; intros toks first Hfirst Hkids; [constructor|].
+  destruct toks as [|g toks']; [constructor|]. cbn [recon_go]. constructor; [|apply Forall_app; split].
+  - destruct (td_dec t) as [c|] eqn:Ed; [|exact I]. destruct first; [|exact I]. cbn [ev_lvl].
+    destruct (Hfirst eq_refl) as (k & lv & Hk & Hh & Htop). exists k, lv. split; [exact Hk|]. split; [exact Hh|].
+    intros Ht. destruct (Htop Ht) as (A & B & C). rewrite (C t ds c eq_refl Ed), B. split; [exact A|reflexivity].
+  - assert (Hk : forall k s', In (k, s') (td_kids t) -> not_top k /\ (forall lv', nth_error lvs k = Some lv' -> lv_top lv' = false -> Forall ev_lvl (recon_events lvs s' (lv_gtoks lv'))))
+      by (intros k s' H; apply (Hkids t k s'); [left; reflexivity|exact H]).
+    clear Hkids IH Hfirst. induction (td_kids t) as [|[k s'] kr IHk]; [constructor|]. cbn [recon_kids fst snd]. apply Forall_app. split.
+    + destruct (Hk k s' (or_introl eq_refl)) as ((lv' & Hn & Ht) & Hev). unfold gtoks_of. rewrite Hn. exact (Hev lv' Hn Ht).
+    + apply IHk. intros k2 s2 H. apply Hk. right; exact H.
+  - apply IH; [discriminate|]. intros t0 k s' H1 H2. apply (Hkids t0 k s'); [right; exact H1|exact H2].
+Qed.
+
+Lemma recon_events_lvl_kid : forall s, sol_from not_top s ->
+  forall k lv, nth_error lvs k = Some lv -> lv_top lv = false -> Forall ev_lvl (recon_events lvs s (lv_gtoks lv)).
+Proof.
+  apply (sol_from_ind'' (fun s => forall k lv, nth_error lvs k = Some lv -> lv_top lv = false -> Forall ev_lvl (recon_events lvs s (lv_gtoks lv)))).
+  intros [ind cont decs p l] Hkids k lv Hk Ht. rewrite recon_events_eq. cbn [sol_decs] in Hkids. apply recon_go_lvl.
+  - intros _. exists k, lv. split; [exact Hk|]. split; [reflexivity|]. intros H. congruence.
+  - intros t k' s' H1 H2. destruct (Hkids t k' s' H1 H2) as (A & _ & C). split; [exact A|]. intros lv' Hn Hf. exact (C k' lv' Hn Hf).
+Qed.
+
+Theorem recon_events_lvl_top s k lv :
+  sol_from not_top s -> nth_error lvs k = Some lv -> sol_ws s = (lv_level lv, 0) ->
+  (forall t ds' c, sol_decs s = t :: ds' -> td_dec t = WBreak c -> c = 0) ->
+  Forall ev_lvl (recon_events lvs s (lv_gtoks lv)).
+Proof.
+  intros Hs Hk Hws Hc. destruct Hs as [s Hkids]. destruct s as [ind cont decs p l]. cbn [sol_ws] in Hws. injection Hws as -> ->.
+  rewrite recon_events_eq. cbn [sol_decs] in *. apply recon_go_lvl.
+  - intros _. exists k, lv. split; [exact Hk|]. split; [reflexivity|]. intros _. split; [reflexivity|]. split; [reflexivity|exact Hc].
+  - intros t k' s' H1 H2. destruct (Hkids t k' s' H1 H2) as (A & B). split; [exact A|]. intros lv' Hn Hf. exact (recon_events_lvl_kid s' B k' lv' Hn Hf).
+Qed.
+
+Definition st_lvl (st : sst) : Prop := cache_ok not_top st /\ Forall ev_lvl (Dlog st).
+
+Lemma first_dec_cont first inv c : first_dec first inv = WBreak c -> c = 0.
+Proof. destruct first as [|ll cb]; cbn [first_dec]; [destruct inv as [[]|]|]; intros H; try discriminate; injection H as <-; reflexivity. Qed.
+
+Lemma format_top_lvl W fm depth st k lv : nth_error lvs k = Some lv -> st_lvl st -> st_lvl (format_top W lvs fm depth st lv).
+Proof.
+  intros Hk (Hc & Hl). unfold format_top. destruct (bid _); [split; assumption|].
+  match goal with |- context [solve W lvs fm depth st lv ?ws ?fd] =>
+    pose proof (solve_kids W lvs fm not_top Hviews depth st lv ws fd (nth_error_In _ _ Hk) Hc) as (S1 & S2);
+    pose proof (state_inv_solve (fun st' => Dlog st' = Dlog st) (fun st0 l o H => H) (fun st0 k0 v H => H) (fun st0 H => H) W lvs fm depth st lv ws fd eq_refl) as S3;
+    pose proof (solve_ws W lvs fm depth st lv ws fd) as S4;
+    pose proof (solve_ok W lvs fm depth st lv ws fd) as S5;
+    destruct (solve W lvs fm depth st lv ws fd) as [st1 r] eqn:Es end.
+  cbn [fst snd] in *. destruct r as [s|]; [|split; [exact S1|rewrite S3; exact Hl]].
+  destruct (sst_log_fold (recon_events lvs s (lv_gtoks lv)) st1) as (L1 & L2).
+  split.
+  - intros key v H. apply (S1 key v). rewrite <- L2. exact H.
+  - unfold Dlog. rewrite L1, filter_app. apply Forall_app; split; [|fold (Dlog st1); rewrite S3; exact Hl].
+    apply Forall_forall. intros e He. apply filter_In in He. destruct He as (He & _). apply in_rev in He.
+    assert (Hall : Forall ev_lvl (recon_events lvs s (lv_gtoks lv))).
+    { apply (recon_events_lvl_top s k lv (S2 s eq_refl) Hk (S4 st1 s eq_refl)).
+      intros t ds' c Hd Ht. specialize (S5 st1 s eq_refl). destruct (lv_recs lv) as [|r rest]; [rewrite S5 in Hd; discriminate|].
+      destruct S5 as (_ & post & Hp). rewrite Hd in Hp. cbn [map] in Hp. injection Hp as Hp _. rewrite Ht in Hp. symmetry in Hp. exact (first_dec_cont _ _ c Hp). }
+    rewrite Forall_forall in Hall. exact (Hall e He).
+Qed.
+End Lvl.
+
+(* ------------------------------------------------------------------ *)
+(* on the views the model builds *)
+From PasfmtVerif Require Import Proofs.FormatEofProofs.
+
+Lemma mk_lviews_level infos lines k lv : nth_error (mk_lviews infos lines) k = Some lv ->
+  exists l, nth_error lines k = Some l /\ lv_level lv = ll_level l.
+Proof.
+  unfold mk_lviews. generalize (ti_build infos 0 PLeaf) (get_line_children (map iline_of lines)) 0%nat. intros tt kids i. revert i k.
+  induction lines as [|l r IH]; intros i k E; [destruct k; discriminate|]. cbn [map mk_lviews_from] in E. destruct k as [|k]; cbn [nth_error] in *.
+  - injection E as <-. exists l. split; reflexivity.
+  - exact (IH (S i) k E).
+Qed.
+
+Lemma has_parent_not_top infos lines k : has_parent lines k -> not_top (mk_lviews infos lines) k.
+Proof.
+  intros (l & Hl & Hp). assert (Hlt : (k < length (mk_lviews infos lines))%nat) by (rewrite mk_lviews_length; apply nth_error_Some; congruence).
+  destruct (nth_error (mk_lviews infos lines) k) as [lv|] eqn:E; [|apply nth_error_None in E; lia].
+  exists lv. split; [exact E|]. destruct (mk_lviews_nth infos lines k lv E) as (l' & Hl' & _ & _ & _ & Ht). rewrite Hl in Hl'. injection Hl' as <-.
+  rewrite Ht. destruct (ll_parent l); [reflexivity|congruence].
+Qed.
+
+Lemma mk_lviews_rec_not_top infos lines : forall lv, In lv (mk_lviews infos lines) -> Forall (rec_from (not_top (mk_lviews infos lines))) (lv_recs lv).
+Proof.
+  intros lv Hin. eapply Forall_impl; [|exact (mk_lviews_rec_from infos lines lv Hin)].
+  intros r Hr lc k Hk Hi. apply has_parent_not_top. exact (Hr lc k Hk Hi).
+Qed.
+
+(* a whole phase keeps: every first-token break in the log sits at the first token of a line, with (level, 0) if the line is a top-level line *)
+Theorem wrap_phase_levels W infos lines which st :
+  st_lvl (mk_lviews infos lines) st -> st_lvl (mk_lviews infos lines) (wrap_phase W infos lines which st).
+Proof.
+  intros Hst. unfold wrap_phase. set (lvs := mk_lviews infos lines) in *.
+  assert (Hgen : forall l i st0, (forall j lv, nth_error l j = Some lv -> nth_error lvs (i + j) = Some lv) -> st_lvl lvs st0 ->
+            st_lvl lvs (fold_left (fun st1 lv => if which lv then format_top W lvs (main_fuel W) (S (length lines)) st1 lv else st1) l st0)).
+  { induction l as [|lv r IH]; intros i st0 Hin H0; [exact H0|]. cbn [fold_left]. apply (IH (S i)).
+    - intros j lv' H'. replace (S i + j)%nat with (i + S j)%nat by lia. apply Hin. exact H'.
+    - destruct (which lv); [|exact H0]. apply (format_top_lvl lvs (mk_lviews_rec_not_top infos lines) W _ _ st0 i lv); [|exact H0].
+      specialize (Hin O lv eq_refl). rewrite PeanoNat.Nat.add_0_r in Hin. exact Hin. }
+  apply (Hgen lvs O); [intros j lv H; exact H|exact Hst].
+Qed.
+
+Corollary wrap_phase1_levels W infos lines : Forall (ev_lvl (mk_lviews infos lines)) (Dlog (wrap_phase1 W infos lines)).
+Proof. apply (wrap_phase_levels W infos lines lv_top sst_init). split; [apply cache_ok_init|constructor]. Qed.
+
+(* ------------------------------------------------------------------ *)
+(* the final vector of phase 1: a token whose last decision is the break before the first token of a line *)
+From PasfmtVerif Require Import Proofs.WrapReadsProofs.
+
+Lemma clamp12_range n : 1 <= clamp12 n <= 2.
+Proof. unfold clamp12. destruct (n <? 1) eqn:A; [lia|]. destruct (2 <? n) eqn:B; [lia|]. apply N.ltb_ge in A, B. lia. Qed.
+
+Theorem olf_phase1_line_starts rs W lines l t tok f ds ind cont L :
+  let lvs := mk_lviews (map tokinfo_of l) lines in
+  let plan := plan_of_events (rev (ss_log (wrap_phase1 W (map tokinfo_of l) lines))) in
+  nth_error (fst (fst (olf_model rs W false lines l))) t = Some (tok, f) ->
+  decs_for t plan = ds ++ [DBreak true ind cont] ->
+  (* every line that starts with token t is a top-level line of level L *)
+  (forall k lv, nth_error lvs k = Some lv -> hd_error (lv_gtoks lv) = Some (N.of_nat t) -> lv_top lv = true /\ lv_level lv = L) ->
+  f_ind f = L /\ f_cont f = 0 /\ f_sp f = 0 /\ 1 <= f_nl f <= 2.
+Proof.
+  intros lvs plan Hn Hd Hlines. unfold olf_model in Hn. cbn [fst] in Hn. fold plan in Hn.
+  (* the event behind the decision *)
+  assert (Hin : In (t, DBreak true ind cont) plan).
+  { assert (H : In (DBreak true ind cont) (decs_for t plan)) by (rewrite Hd; apply in_or_app; right; left; reflexivity).
+    unfold decs_for in H. apply in_map_iff in H. destruct H as ([t' d'] & Hd' & Hfl). apply filter_In in Hfl. destruct Hfl as (Hfl & Heq).
+    cbn [fst snd] in *. apply PeanoNat.Nat.eqb_eq in Heq. subst. exact Hfl. }
+  destruct (plan_of_events_in t _ _ Hin) as (tk & dd & lll & fs & Hev & Htk & Hdd).
+  destruct dd as [[[fb i0] c0]|]; [|discriminate]. injection Hdd as <- <- <-.
+  pose proof (wrap_phase1_levels W (map tokinfo_of l) lines) as Hall. rewrite Forall_forall in Hall.
+  assert (Hev' : In (Ev_D tk (Some (true, ind, cont)) lll fs) (Dlog (wrap_phase1 W (map tokinfo_of l) lines)))
+    by (unfold Dlog; apply filter_In; split; [apply in_rev; exact Hev|reflexivity]).
+  destruct (Hall _ Hev') as (k & lv & Hk & Hh & Htop). fold lvs in Hk.
+  assert (Htk' : tk = N.of_nat t) by (rewrite <- Htk, Nnat.N2Nat.id; reflexivity). rewrite Htk' in Hh.
+  destruct (Hlines k lv Hk Hh) as (Ht & HL). destruct (Htop Ht) as (Ei & Ec).
+  (* the counters *)
+  rewrite zero_line_starts_nth', apply_plan_nth in Hn. destruct (nth_error l t) as [[tok0 f0]|]; [|discriminate].
+  cbn [option_map fst snd] in Hn. rewrite Hd, fold_left_app in Hn. cbn [fold_left apply_decision f_nl] in Hn.
+  pose proof (clamp12_range (f_nl (fold_left apply_decision ds f0))) as Hr.
+  replace (0 <? clamp12 (f_nl (fold_left apply_decision ds f0))) with true in Hn by (symmetry; apply N.ltb_lt; lia).
+  injection Hn as _ <-. cbn [f_ind f_cont f_sp f_nl]. repeat split; try lia; congruence.
+Qed.
+
+Print Assumptions olf_phase1_line_starts.
